@@ -96,7 +96,7 @@ package queue
 //@   invariant 0: fresh(u) && QInv(u) && u.r != nil && (seed != 0 ==> randSeed(u.r) == seed)
 //@     && (forall i int :: 0 <= i && i < len(values) ==> FakeMsgWf(values[i]) && allocated(values[i].Timestamp))
 //@   ensures [seeded-as-asked C20] seed != 0 ==> res0 != nil && res0.r != nil && randSeed(res0.r) == seed
-//@   ensures [queue-built C20] QInv(res0)
+//@   ensures [queue-built C20] QInv(res0) && res0.r != nil && fresh(res0)
 
 //@ func newValue
 //@   props C20 C12
@@ -134,7 +134,9 @@ package queue
 // (a generator is queued at most once)
 //@ pred Distinct(u *UpdateQueue) := forall i int, j int, k int, l int :: 0 <= i && i < len(u.q) && 0 <= j && j < len(u.q[i]) && 0 <= k && k < len(u.q) && 0 <= l && l < len(u.q[k]) && (i != k || j != l) ==> u.q[i][j] != u.q[k][l]
 //@ pred NotQueued(u *UpdateQueue, v *value) := forall i int, j int :: 0 <= i && i < len(u.q) && 0 <= j && j < len(u.q[i]) ==> u.q[i][j] != v
-//@ pred QInv(u *UpdateQueue) := u != nil && BucketsWf(u) && Ascending(u) && OwnArrays(u) && Distinct(u)
+// (latest is an upper bound of every queued timestamp)
+//@ pred LatestBound(u *UpdateQueue) := forall i int :: 0 <= i && i < len(u.q) ==> TS(u.q[i][0]) <= u.latest
+//@ pred QInv(u *UpdateQueue) := u != nil && BucketsWf(u) && Ascending(u) && OwnArrays(u) && Distinct(u) && LatestBound(u)
 
 // addValue files the generator under its timestamp: the binary search ends at a bucket
 // with exactly that timestamp (the generator is appended to it), or at the one position
@@ -144,7 +146,7 @@ package queue
 //@   props C20 C12
 //@   requires QInv(u) && ValWf(v) && allocated(v.v) && allocated(v.v.Timestamp) && NotQueued(u, v)
 //@   modifies u.q, u.latest, v.v.Timestamp, heap([][]*value), heap([]*value)
-//@   invariant 0: 0 <= l && l <= r && r <= len(u.q) && u.q == old(u.q) && BucketsWf(u) && Ascending(u) && OwnArrays(u) && Distinct(u) && NotQueued(u, v) && v.v.Timestamp != nil && t == TS(v)
+//@   invariant 0: 0 <= l && l <= r && r <= len(u.q) && u.q == old(u.q) && BucketsWf(u) && Ascending(u) && OwnArrays(u) && Distinct(u) && NotQueued(u, v) && (forall i int :: 0 <= i && i < len(u.q) ==> TS(u.q[i][0]) <= u.latest) && u.latest >= t && v.v.Timestamp != nil && t == TS(v)
 //@     && (forall i int :: 0 <= i && i < l ==> TS(u.q[i][0]) < t) && (forall i int :: r <= i && i < len(u.q) ==> TS(u.q[i][0]) > t)
 //@   assert at builtin append#0: [new-bucket-at-the-sorted-position C20] l == r && (forall i int :: 0 <= i && i < r ==> TS(u.q[i][0]) < t) && (forall i int :: r <= i && i < len(u.q) ==> TS(u.q[i][0]) > t)
 //@   assert at builtin append#2: [joins-the-bucket-of-its-timestamp C20] 0 <= i && i < len(u.q) && TS(u.q[i][0]) == t
@@ -152,6 +154,8 @@ package queue
 //@   ensures [ascending C20] Ascending(u)
 //@   ensures [own-arrays C20] OwnArrays(u)
 //@   ensures [queued-once C20] Distinct(u)
+//@   ensures [latest-bounds-the-queue C20] LatestBound(u)
+//@   ensures [joins-at-the-end-of-its-bucket C20] forall i int :: 0 <= i && i < old(len(u.q)) && old(TS(u.q[i][0])) == TS(v) ==> len(u.q) == old(len(u.q)) && len(u.q[i]) == old(len(u.q[i])) + 1 && u.q[i][len(u.q[i]) - 1] == v
 //@   ensures [default-timestamp-when-missing C20] v.v.Timestamp != nil && (old(v.v.Timestamp) != nil ==> v.v.Timestamp == old(v.v.Timestamp)) && (old(v.v.Timestamp) == nil ==> fresh(v.v.Timestamp) && v.v.Timestamp.Timestamp == 0)
 //@   ensures [latest-tracks-the-maximum C20] u.latest == ite(TS(v) > old(u.latest), TS(v), old(u.latest))
 
@@ -187,3 +191,12 @@ package queue
 //@   props C20 C12
 //@   requires u != nil
 //@   ensures res0 == u.latest
+
+// The fixed-response queue is not under contract (it replays a list as given).
+//@ func NewFixed
+//@   trusted
+//@   ensures res0 != nil
+//@   note body not verified
+//@ func (*FixedQueue).Add
+//@   trusted
+//@   note body not verified
